@@ -59,6 +59,59 @@ fn balance_is_sum_of_unspent() {
     }
 }
 
+/// C19: the wallet stops short of the requested amount only when every slip it may spend right now (inside the retention
+/// window) has been handed out — slips about to be rebroadcast are skipped, not a reason to stop looking
+/// (note: the test build iterates the unspent slips sorted by amount, the release build in hash-set order)
+#[test]
+fn spendable_funds_used_before_giving_up() {
+    let (pk, sk) = generate_keys();
+    let mut rng = Rng::from_env();
+    for run in 0..400 {
+        let mut w = Wallet::new(sk, pk);
+        let gp = 10u64; let latest = 12 + rng.below(4);
+        let n = 1 + rng.below(6);
+        let mut desc = vec![];
+        for i in 0..n {
+            let mut s = Slip::default(); s.public_key = pk; s.amount = 1 + rng.below(1000); s.block_id = 1 + rng.below(latest); s.tx_ordinal = i; s.slip_index = 0;
+            s.generate_utxoset_key();
+            w.add_slip(s.block_id, s.tx_ordinal, &s, true, None);
+            desc.push((s.block_id, s.amount));
+        }
+        let want = 1 + rng.below(1500);
+        let spendable_before: u128 = w.unspent_slips.iter().map(|k| w.slips.get(k).unwrap()).filter(|s| s.block_id > latest.saturating_sub(gp - 1)).map(|s| s.amount as u128).sum();
+        let (inputs, _outputs) = w.generate_slips(want, None, latest, gp);
+        let sin: u128 = inputs.iter().map(|s| s.amount as u128).sum();
+        let left: Vec<(u64, u64)> = w.unspent_slips.iter().map(|k| w.slips.get(k).unwrap()).filter(|s| s.block_id > latest.saturating_sub(gp - 1)).map(|s| (s.block_id, s.amount)).collect();
+        if sin < want as u128 && !left.is_empty() {
+            witness(format!("run {}: wallet slips (block, amount) {:?}, latest block {}, retention window {}: {} requested, spendable in-window funds {}, inputs handed out {} — although in-window slips {:?} were still unspent", run, desc, latest, gp, want, spendable_before, sin, left));
+        }
+        if let Err(e) = balance_matches(&w) { witness(format!("run {}: {}", run, e)); }
+    }
+}
+
+/// C19 (known finding): Transaction::create checks the request against the available balance, which also counts slips
+/// that are about to leave the retention window; Wallet::generate_slips skips those — the transaction it then builds
+/// pays out more than its inputs carry
+#[test]
+fn built_transaction_never_spends_more_than_it_consumes() {
+    let (pk, sk) = generate_keys();
+    let mut w = Wallet::new(sk, pk);
+    let mut s = Slip::default(); s.public_key = pk; s.amount = 1000; s.block_id = 1; s.tx_ordinal = 0; s.slip_index = 0;
+    s.generate_utxoset_key();
+    w.add_slip(1, 0, &s, true, None);
+    let (latest, gp) = (12u64, 10u64);
+    match Transaction::create(&mut w, [7u8; 33], 500, 0, false, None, latest, gp) {
+        Err(_) => {}
+        Ok(tx) => {
+            let sin: u128 = tx.from.iter().map(|s| s.amount as u128).sum(); let sout: u128 = tx.to.iter().map(|s| s.amount as u128).sum();
+            if sout > sin {
+                witness(format!("wallet holds one unspent slip of 1000 from block 1, latest block {}, retention window {} (the slip is about to be rebroadcast); Transaction::create(payment 500) succeeds: available balance 1000 covers it, but generate_slips skips the slip — the built transaction has inputs {:?} and outputs {:?}: it spends {} and consumes {}",
+                    latest, gp, tx.from.iter().map(|s| s.amount).collect::<Vec<_>>(), tx.to.iter().map(|s| s.amount).collect::<Vec<_>>(), sout, sin));
+            }
+        }
+    }
+}
+
 /// C10/C12: the wallet file decoder is fed whatever is on disk (RustIOHandler::load_wallet passes the file's bytes
 /// unchecked); a truncated or torn file must not abort the node
 #[test]
